@@ -53,6 +53,10 @@ type c14Op struct {
 	B2    bool   `json:"b2"`
 	Route string `json:"route,omitempty"` // params: "legacy" = ParameterChangeProposal through the params module's handler
 	Ghost bool   `json:"ghost,omitempty"` // executed on a branch that is discarded: nothing of it may remain
+	// receipt: one Ethereum transaction with several calls / logs (c03_receipt.go).  Via "vault": the callee of the
+	// transaction is the multicall contract, NOT a token contract
+	Via  string   `json:"via,omitempty"`
+	Legs []c03Leg `json:"legs,omitempty"`
 }
 
 type c14Case struct {
@@ -64,11 +68,11 @@ type c14Case struct {
 }
 
 func (o c14Op) base() c03Op {
-	return c03Op{Kind: o.Kind, Pair: o.Pair, From: o.From, To: o.To, Amt: o.Amt, B1: o.B1, B2: o.B2}
+	return c03Op{Kind: o.Kind, Pair: o.Pair, From: o.From, To: o.To, Amt: o.Amt, B1: o.B1, B2: o.B2, Via: o.Via, Legs: o.Legs}
 }
 
 func c14Of(o c03Op) c14Op {
-	return c14Op{Kind: o.Kind, Pair: o.Pair, From: o.From, To: o.To, Amt: o.Amt, B1: o.B1, B2: o.B2}
+	return c14Op{Kind: o.Kind, Pair: o.Pair, From: o.From, To: o.To, Amt: o.Amt, B1: o.B1, B2: o.B2, Via: o.Via, Legs: o.Legs}
 }
 
 func c14NewWorld(w *c03World, unit *big.Int) *c14World {
@@ -97,7 +101,38 @@ func c14NewWorld(w *c03World, unit *big.Int) *c14World {
 			c03Must(w.A.BankKeeper.SendCoins(w.Ctx, w.acc(from), l.Acc, amt))
 		}
 	}
+	// every module account (blocked addresses, the erc20 module account among them) owns coins and tokens of every
+	// pair, so that a conversion with a module account as sender AND receiver - what a governance proposal executes:
+	// its messages are signed by the gov module account - has something to convert.  Coins by keeper-level bank
+	// sends, tokens by ordinary ERC-20 transfers (to the erc20 module address with the hook switched off, so that
+	// they stay there)
+	amt12 := new(big.Int).Mul(unit, big.NewInt(12))
+	if !w.apply(w.Ctx, c03Op{Kind: "params", B1: true, B2: false}) {
+		panic("switching the hook off failed")
+	}
+	for i := w.ModIdx; i < w.ZeroIdx; i++ {
+		from := i % w.NHold
+		for pi, pr := range w.Pairs {
+			c03Must(w.A.BankKeeper.SendCoins(w.Ctx, w.acc(from), w.acc(i), sdk.NewCoins(sdk.NewCoin(pr.Denom, sdkmath.NewIntFromBigInt(amt12)))))
+			if !w.apply(w.Ctx, c03Op{Kind: "transfer", Pair: pi, From: from, To: i, Amt: amt12.String()}) {
+				panic("funding module account " + w.Parties[i].Name + " with tokens failed")
+			}
+		}
+	}
+	if !w.apply(w.Ctx, c03Op{Kind: "params", B1: true, B2: true}) {
+		panic("switching the hook on failed")
+	}
 	return cw
+}
+
+// c14Module: party index of the module account with this name (-1: none)
+func (w *c14World) c14Module(name string) int {
+	for i := w.ModIdx; i < w.ZeroIdx; i++ {
+		if w.Parties[i].Name == "module:"+name {
+			return i
+		}
+	}
+	return -1
 }
 
 func (w *c14World) isLong(i int) bool  { return i >= len(w.Parties) }
@@ -315,9 +350,11 @@ func (w *c14World) c14Exec(e *Env, prepared sdk.Context, kase *c14Case, n int, g
 	ctx, _ := prepared.CacheContext()
 	caseIdx := e.nCases
 	selfburned := make([]*big.Int, len(w.Pairs))
-	zero := make([]*big.Int, len(w.Pairs)) // also the ghost counter "stuck": no generated transfer names a blocked sender
+	stuck := make([]*big.Int, len(w.Pairs))
+	zero := make([]*big.Int, len(w.Pairs))
 	for i := range selfburned {
 		selfburned[i] = big.NewInt(0)
+		stuck[i] = big.NewInt(0)
 		zero[i] = big.NewInt(0)
 	}
 	alarmed := map[string]bool{}
@@ -344,6 +381,7 @@ func (w *c14World) c14Exec(e *Env, prepared sdk.Context, kase *c14Case, n int, g
 	}
 	cur := init
 	prevSB := append([]*big.Int{}, zero...)
+	prevStuck := append([]*big.Int{}, zero...)
 	replay := gen == nil
 	if replay {
 		n = len(kase.Ops)
@@ -374,6 +412,22 @@ func (w *c14World) c14Exec(e *Env, prepared sdk.Context, kase *c14Case, n int, g
 			e.Stats.Count("ghost:" + o.Kind + route)
 		} else {
 			e.Stats.Count("op:" + o.Kind + route + ":" + cls)
+		}
+		if o.Kind == "receipt" && !o.Ghost {
+			// ghost counter of the model: coins that stay in escrow because a log names a blocked sender
+			for p, d := range w.c03ReceiptStats(e, o.base(), ok, cur) {
+				stuck[p] = new(big.Int).Add(stuck[p], d)
+			}
+			if o.Via == "vault" {
+				for _, l := range o.Legs {
+					if l.Kind == "transfer" && l.To == w.ModIdx && c03Big(l.Amt).Sign() > 0 {
+						e.Stats.Count(fmt.Sprintf("callee-is-not-the-token-contract:transfer-to-module:mod=%v,hook=%v,pair=%v", cur.Mod, cur.Hook, cur.Pairs[l.Pair].Enabled))
+					}
+				}
+			}
+		}
+		if (o.Kind == "convert_coin" || o.Kind == "convert_erc20") && o.From == o.To && !w.isLong(o.From) && w.Parties[o.From].Module {
+			e.Stats.Count("module-account-converts-to-itself:" + w.Parties[o.From].Name + ":" + cls)
 		}
 		if o.Kind == "convert_coin" || o.Kind == "convert_erc20" {
 			cp := o.From
@@ -406,6 +460,21 @@ func (w *c14World) c14Exec(e *Env, prepared sdk.Context, kase *c14Case, n int, g
 					e.Stats.Count("hook:plain-transfer-to-module-address")
 				}
 			}
+			if ok && o.Kind == "receipt" {
+				converted := false
+				for p := range post.Pairs {
+					pp, qq := cur.Pairs[p], post.Pairs[p]
+					if pp.Supply.Cmp(qq.Supply) != 0 || !c03SameInts(pp.CBal, qq.CBal) {
+						converted = true
+					}
+				}
+				if converted {
+					e.Stats.Count("hook:converted-in-multi-log-receipt")
+					sig += "C"
+				} else {
+					e.Stats.Count("hook:multi-log-receipt-without-conversion")
+				}
+			}
 		}
 		mo, mok := o, ok
 		if o.Kind == "params" && o.Route == "legacy" && !ok {
@@ -413,10 +482,14 @@ func (w *c14World) c14Exec(e *Env, prepared sdk.Context, kase *c14Case, n int, g
 			// subspace): nothing was flipped, and to the model nothing happened
 			mo.Ghost, mok = true, true
 		}
-		steps = append(steps, Tup(w.c14OpTerm(mo, cur), B(mok), w.dobsTerm(cur, prevSB, zero, post, selfburned, zero)))
+		steps = append(steps, Tup(w.c14OpTerm(mo, cur), B(mok), w.dobsTerm(cur, prevSB, prevStuck, post, selfburned, stuck)))
 		cur = post
 		prevSB = append([]*big.Int{}, selfburned...)
+		prevStuck = append([]*big.Int{}, stuck...)
 		sig += fmt.Sprintf("%s/%d/%d/%d/%s/%s/%v/%v;", o.Kind, o.Pair, o.From, o.To, o.Amt, o.Route, o.Ghost, ok)
+		for _, l := range o.Legs {
+			sig += fmt.Sprintf("%s.%s/%d/%d/%d/%s;", o.Via, l.Kind, l.Pair, l.From, l.To, l.Amt)
+		}
 	}
 	kase.Names = nil
 	var pts []string
